@@ -632,7 +632,8 @@ def check_property(prop, tier, jobs, keep=False):
 
 
 def write_evidence(prop, tier, seed, obls, recs, labels_ok, queries, solver_s, violations, knowns, notdis, broken, wall):
-    os.makedirs(os.path.join(ROOT, "evidence"), exist_ok=True)
+    evdir = os.environ.get("VERIF_EVIDENCE_DIR", os.path.join(ROOT, "evidence"))   # development runs against a scratch tree write elsewhere
+    os.makedirs(evdir, exist_ok=True)
     import obligations
     meta = getattr(obligations, "PROPERTY_NOTES", {}).get(prop, {})
     samples = []
@@ -689,7 +690,7 @@ def write_evidence(prop, tier, seed, obls, recs, labels_ok, queries, solver_s, v
         "wall_s": round(wall, 2),
         "violations": len(violations),
     }
-    json.dump(ev, open(os.path.join(ROOT, "evidence", prop + ".json"), "w"), indent=1)
+    json.dump(ev, open(os.path.join(evdir, prop + ".json"), "w"), indent=1)
 
 
 # --------------------------------------------------------------------------- misc commands
